@@ -128,6 +128,8 @@ ResponseFails(s, e) ==
                          e.res = "none" /\ e.n = e.mlen /\ ~e.ready)
             ELSE FClause("C09", "an interim 100 response must be consumed exactly and must not make the flow ready to advance",
                          e.res \in {"none", "some"} /\ e.n = e.mlen /\ ~e.ready)
+            \cup FClause("C11", "a late 100 is skipped exactly once: a further 100 must be handed to the caller, not swallowed",
+                         s.skipped >= 1 => e.res = "some")
        [] OTHER ->
             FClause("C09", "a complete well-formed response head was not accepted",
                     IF ms = {ErrMode} THEN e.res = "err" ELSE (e.res = "some" /\ e.n = e.mlen /\ e.ready))
